@@ -1,5 +1,383 @@
-//! Gate-scheduled multi-thread driver (filled in later).
-pub fn main(_args: &[String]) {
-    eprintln!("gate driver not built yet");
-    std::process::exit(2);
+//! Real threads against the real crate.
+//!   fbv gate gate   --seed S --n N --out trace --scn-out scenarios     gate-scheduled interleavings (exact order)
+//!   fbv gate stress --seed S --n N --out trace --scn-out scenarios     free-running threads
+//!   fbv gate run <scenarios.jsonl> <trace>                             replay stored gate scenarios
+//! One owner thread (push / poll / drop of the collection) and producer threads holding cloned child wakers
+//! (wake_by_ref, wake, clone, drop).  In gate mode every sync point (hook events inside wake_by_ref / push /
+//! pop / register / clone / drop, task-waker callbacks, child poll entry and exit) parks the thread until
+//! the schedule grants it the next step, so exactly one thread runs at a time and the recorded trace is
+//! totally ordered without clocks.  A thread is never released into a slot lock that a parked thread holds.
+
+use crate::gate;
+use crate::randgen::Rng;
+use crate::subject::{Op, Runner, Scenario};
+use crate::world::*;
+use serde::{Deserialize, Serialize};
+use std::collections::HashMap;
+use std::io::{BufRead, Write};
+
+#[derive(Clone, Debug, Serialize, Deserialize)]
+#[serde(tag = "op", rename_all = "snake_case")]
+pub enum POp {
+    /// get an own clone of child c's waker (if the child has been polled)
+    Take { c: u32 },
+    WakeByRef { c: u32 },
+    /// wake by value: consumes the producer's clone
+    Wake { c: u32 },
+    Clone { c: u32 },
+    Drop { c: u32 },
+}
+
+#[derive(Clone, Debug, Serialize, Deserialize, Default)]
+pub struct GateScenario {
+    pub id: String,
+    pub base: Scenario,
+    pub producers: Vec<Vec<POp>>,
+    /// thread chosen at each scheduling step (recorded, so that a run can be replayed exactly)
+    #[serde(default)]
+    pub schedule: Vec<usize>,
+    #[serde(default)]
+    pub exact: bool,
+}
+
+fn gen_gate(rng: &mut Rng, stress: bool) -> GateScenario {
+    let kind = if rng.pct(60) { "fub" } else { "fu" };
+    let nchild = 1 + rng.below(3) as u32;
+    let mut base = Scenario { kind: kind.into(), ctor: "with_capacity".into(), tail: "none".into(), ..Default::default() };
+    base.cap = if kind == "fub" { nchild as usize + rng.below(2) as usize } else { 1 };
+    for c in 1..=nchild {
+        let mut steps = vec![];
+        for _ in 0..rng.below(3) {
+            steps.push(Step { acts: if rng.pct(20) { vec![Act::SelfWake] } else { vec![] }, resp: "P".into() });
+        }
+        if rng.pct(50) {
+            steps.push(Step { acts: vec![], resp: "R".into() });
+        } else {
+            for _ in 0..6 {
+                steps.push(Step { acts: vec![], resp: "P".into() });
+            }
+        }
+        base.scripts.insert(c, steps);
+        base.ops.push(Op::Push { c, front: false, r#try: false });
+    }
+    let npoll = if stress { 200 } else { 2 + rng.below(4) };
+    for i in 0..npoll {
+        base.ops.push(Op::Poll { w: if rng.pct(75) { 1 } else { 2 } });
+        if !stress && i == 0 && rng.pct(30) && kind == "fub" && base.cap > nchild as usize {
+            base.scripts.insert(nchild + 1, vec![Step { acts: vec![], resp: "P".into() }]);
+            base.ops.push(Op::Push { c: nchild + 1, front: false, r#try: false });
+        }
+    }
+    if rng.pct(70) {
+        base.ops.push(Op::DropColl);
+    }
+    let nprod = 1 + rng.below(2) as usize;
+    let mut producers = vec![];
+    for _ in 0..nprod {
+        let mut ops = vec![];
+        let n = if stress { 300 } else { 2 + rng.below(5) };
+        let c0 = 1 + rng.below(nchild as u64) as u32;
+        ops.push(POp::Take { c: c0 });
+        for _ in 0..n {
+            let c = if rng.pct(70) { c0 } else { 1 + rng.below(nchild as u64) as u32 };
+            ops.push(match rng.below(20) {
+                0..=1 => POp::Take { c },
+                2..=12 => POp::WakeByRef { c },
+                13..=14 => POp::Wake { c },
+                15..=16 => POp::Clone { c },
+                _ => POp::Drop { c },
+            });
+        }
+        producers.push(ops);
+    }
+    GateScenario { id: String::new(), base, producers, schedule: vec![], exact: !stress }
+}
+
+fn producer_body(ops: &[POp], gated: bool) {
+    let mut mine: Vec<(u32, std::task::Waker)> = vec![];
+    for op in ops {
+        if gated {
+            gate::sync("op");
+        } else if mine.is_empty() {
+            std::thread::yield_now();
+        }
+        match op {
+            POp::Take { c } | POp::Clone { c } => {
+                // wait (bounded) until the child has been polled and left its waker
+                if matches!(op, POp::Take { .. }) {
+                    for _ in 0..40 {
+                        if with(|w| w.stash.contains_key(c)) {
+                            break;
+                        }
+                        if gated {
+                            gate::sync("wait");
+                        } else {
+                            std::thread::yield_now();
+                        }
+                    }
+                }
+                // clone the stored waker of child c (an increment of the shared count on this thread)
+                let wk = with(|w| w.stash.remove(c));
+                if let Some(wk) = wk {
+                    let cl = {
+                        let _c = InCrate::enter();
+                        wk.clone()
+                    };
+                    // put it back without dropping anything under the lock
+                    let old = with(|w| w.stash.insert(*c, wk));
+                    drop(old);
+                    mine.push((*c, cl));
+                } else if let Some(i) = mine.iter().position(|x| x.0 == *c) {
+                    let cl = {
+                        let _c = InCrate::enter();
+                        mine[i].1.clone()
+                    };
+                    mine.push((*c, cl));
+                }
+            }
+            POp::WakeByRef { c } => {
+                if let Some(i) = mine.iter().position(|x| x.0 == *c) {
+                    let wk = mine[i].1.clone_ref();
+                    fire(*c, wk, false);
+                }
+            }
+            POp::Wake { c } => {
+                if let Some(i) = mine.iter().position(|x| x.0 == *c) {
+                    let (_, wk) = mine.remove(i);
+                    let key = with(|w| w.key_of(wk.data() as usize));
+                    ev(format!(r#"{{"e":"wake_b","c":{},"key":{},"t":{}}}"#, c, key, gate::me()));
+                    {
+                        let _c = InCrate::enter();
+                        wk.wake();
+                    }
+                    ev(format!(r#"{{"e":"wake_e","t":{}}}"#, gate::me()));
+                }
+            }
+            POp::Drop { c } => {
+                if let Some(i) = mine.iter().position(|x| x.0 == *c) {
+                    let (_, wk) = mine.remove(i);
+                    let _c = InCrate::enter();
+                    drop(wk);
+                }
+            }
+        }
+    }
+    if gated {
+        gate::sync("op");
+    }
+    let _c = InCrate::enter();
+    drop(mine);
+}
+
+trait CloneRef {
+    fn clone_ref(&self) -> &Self;
+}
+impl CloneRef for std::task::Waker {
+    fn clone_ref(&self) -> &Self {
+        self
+    }
+}
+
+/// what the scheduler knows about slot locks: (thread -> key it holds), from the labels of the sync points
+fn lock_info(label: &str) -> Option<(u32, i64)> {
+    // labels of hook sync points: "H<kind>:<key>"
+    let rest = label.strip_prefix('H')?;
+    let mut it = rest.split(':');
+    let kind: u32 = it.next()?.parse().ok()?;
+    let key: i64 = it.next()?.parse().ok()?;
+    Some((kind, key))
+}
+
+pub fn run_gate(sc: &mut GateScenario, run: u64, rng: Option<&mut Rng>) {
+    let gated = sc.exact;
+    reset_world(true);
+    ev(format!(
+        r#"{{"e":"reset","kind":"{}","cap":{},"run":{},"exact":{}}}"#,
+        sc.base.kind, sc.base.cap, run, gated
+    ));
+    with(|w| {
+        for (c, steps) in &sc.base.scripts {
+            w.scripts.insert(*c, steps.iter().cloned().collect());
+        }
+    });
+    let nthreads = 1 + sc.producers.len();
+    if gated {
+        gate::init(nthreads);
+    }
+    let base = sc.base.clone();
+    let owner = std::thread::spawn(move || {
+        if gated {
+            gate::register(0);
+        }
+        if let Some(mut r) = Runner::construct(&base) {
+            for op in &base.ops {
+                if gated {
+                    gate::sync("op");
+                }
+                r.apply(op);
+            }
+            if gated {
+                gate::sync("op");
+            }
+            r.drop_coll();
+            // what the owner received is dropped here; the stored wakers are dropped by the main thread
+            let rec = std::mem::take(&mut r.received);
+            drop(rec);
+        }
+        if gated {
+            gate::unregister();
+        }
+    });
+    let mut handles = vec![];
+    for (i, ops) in sc.producers.iter().enumerate() {
+        let ops = ops.clone();
+        handles.push(std::thread::spawn(move || {
+            if gated {
+                gate::register(i + 1);
+            }
+            producer_body(&ops, gated);
+            if gated {
+                gate::unregister();
+            }
+        }));
+    }
+    if gated {
+        gate::wait_started(nthreads);
+        let replay = !sc.schedule.is_empty();
+        let mut sched_out = vec![];
+        let mut held: HashMap<usize, i64> = HashMap::new();
+        let mut wants: HashMap<usize, i64> = HashMap::new();
+        let mut done = vec![false; nthreads];
+        let mut cur = 0usize;
+        let mut pos = 0usize;
+        let mut rng_local = Rng::new(run.wrapping_mul(7919) ^ 0xABCDEF);
+        let rng = match rng {
+            Some(r) => r,
+            None => &mut rng_local,
+        };
+        let mut steps = 0u64;
+        loop {
+            let runnable: Vec<usize> = (0..nthreads)
+                .filter(|t| !done[*t])
+                .filter(|t| match wants.get(t) {
+                    Some(k) => !held.iter().any(|(h, hk)| h != t && hk == k),
+                    None => true,
+                })
+                .collect();
+            if runnable.is_empty() {
+                break;
+            }
+            let t = if replay && pos < sc.schedule.len() && runnable.contains(&sc.schedule[pos]) {
+                sc.schedule[pos]
+            } else if runnable.contains(&cur) && rng.pct(65) {
+                cur
+            } else {
+                runnable[rng.below(runnable.len() as u64) as usize]
+            };
+            pos += 1;
+            cur = t;
+            sched_out.push(t);
+            let label = gate::step(t);
+            steps += 1;
+            wants.remove(&t);
+            if label == "exit" {
+                done[t] = true;
+                held.remove(&t);
+                continue;
+            }
+            match lock_info(&label) {
+                // about to take the slot lock
+                Some((20, k)) | Some((25, k)) | Some((40, k)) => {
+                    held.remove(&t);
+                    wants.insert(t, k);
+                }
+                // holds the slot lock now
+                Some((21, k)) | Some((26, k)) => {
+                    held.insert(t, k);
+                }
+                // still inside the locked region
+                Some((22, _)) | Some((23, _)) | Some((27, _)) => {}
+                _ => {
+                    // any other sync point: tw.wake / tw.clone / tw.drop callbacks happen inside notify or
+                    // register, possibly under the slot lock; everything else is outside
+                    if !label.starts_with("tw.") {
+                        held.remove(&t);
+                    }
+                }
+            }
+            if steps > 200_000 {
+                break;
+            }
+        }
+        sc.schedule = sched_out;
+    }
+    let _ = owner.join();
+    for h in handles {
+        let _ = h.join();
+    }
+    if gated {
+        gate::shutdown();
+    }
+    // the stored wakers go last
+    let (stash, pool) = with(|w| {
+        (std::mem::take(&mut w.stash).into_iter().collect::<Vec<_>>(), std::mem::take(&mut w.pool))
+    });
+    {
+        let _c = InCrate::enter();
+        drop(stash);
+        drop(pool);
+    }
+    take_allocs();
+    ev(r#"{"e":"end"}"#.to_string());
+}
+
+pub fn main(args: &[String]) {
+    let arg = |name: &str| args.iter().position(|a| a == name).and_then(|i| args.get(i + 1)).cloned();
+    let mode = args.first().cloned().unwrap_or_default();
+    match mode.as_str() {
+        "gate" | "stress" => {
+            let seed: u64 = arg("--seed").and_then(|s| s.parse().ok()).unwrap_or(1);
+            let n: u64 = arg("--n").and_then(|s| s.parse().ok()).unwrap_or(100);
+            let mut out = std::io::BufWriter::new(std::fs::File::create(arg("--out").expect("--out")).unwrap());
+            let mut scn_out = arg("--scn-out").map(|p| std::io::BufWriter::new(std::fs::File::create(p).unwrap()));
+            let mut rng = Rng::new(seed ^ 0x6A7E);
+            let mut events = 0u64;
+            for run in 1..=n {
+                let mut sc = gen_gate(&mut rng, mode == "stress");
+                sc.id = format!("{}:{}:{}", mode, seed, run);
+                sc.base.id = sc.id.clone();
+                run_gate(&mut sc, run, Some(&mut rng));
+                if let Some(s) = scn_out.as_mut() {
+                    writeln!(s, "{}", serde_json::to_string(&sc).unwrap()).unwrap();
+                }
+                for l in take_log() {
+                    events += 1;
+                    writeln!(out, "{}", l).unwrap();
+                }
+            }
+            println!("{{\"runs\":{},\"events\":{}}}", n, events);
+        }
+        "run" => {
+            let inp = std::fs::File::open(&args[1]).expect("open scenarios");
+            let mut out = std::io::BufWriter::new(std::fs::File::create(&args[2]).expect("create trace"));
+            let mut run = 0u64;
+            for line in std::io::BufReader::new(inp).lines() {
+                let line = line.unwrap();
+                if line.trim().is_empty() {
+                    continue;
+                }
+                let mut sc: GateScenario = serde_json::from_str(&line).expect("gate scenario");
+                run += 1;
+                run_gate(&mut sc, run, None);
+                for l in take_log() {
+                    writeln!(out, "{}", l).unwrap();
+                }
+            }
+            println!("{{\"runs\":{}}}", run);
+        }
+        _ => {
+            eprintln!("usage: fbv gate gate|stress|run ...");
+            std::process::exit(2);
+        }
+    }
 }
